@@ -30,6 +30,7 @@ type scope struct {
 type analyzer struct {
 	s      *Server
 	params []*Type
+	used   map[int]bool // parameter numbers that occur in the statement
 	ctes   []map[string][]colDesc
 }
 
@@ -85,6 +86,9 @@ func (s *Server) analyze(st any, given []uint32) (*stmtInfo, *pgErr) {
 	}
 	for i, t := range a.params {
 		if t == nil {
+			if !a.used[i+1] { // e.g. $1 and $3 occur but $2 does not
+				return nil, errf("42P18", "could not determine data type of parameter $%d", i+1)
+			}
 			a.params[i] = tText
 		}
 	}
@@ -105,6 +109,10 @@ func tableCols(t *table, alias string) []colDesc {
 }
 
 func (a *analyzer) setParam(n int, t *Type) {
+	if a.used == nil {
+		a.used = map[int]bool{}
+	}
+	a.used[n] = true
 	for len(a.params) < n {
 		a.params = append(a.params, nil)
 	}
